@@ -148,26 +148,30 @@ def adjust_moisture_content(retentate, permeate, moisture_content, ID=None, stri
     if ID is None: 
         ID = CAS_water
         MW = 18.01528
-        retentate_water = retentate.imol[ID]
+        rkey = ('l', ID) if isinstance(retentate, tmo.MultiStream) else ID
+        pkey = ('l', ID) if isinstance(permeate, tmo.MultiStream) else ID
+        retentate_water = np.sum(retentate.imol[ID]) # Over all phases
         dry_mass = F_mass - MW * retentate_water
-        key = ('l', ID) if isinstance(retentate, tmo.MultiStream) else ID
-        retentate.imol[key] = water = (dry_mass * mc/(1-mc)) / MW    
-        key = ('l', ID) if isinstance(retentate, tmo.MultiStream) else ID
-        permeate.imol[key] -= water - retentate_water
+        water = (dry_mass * mc/(1-mc)) / MW
+        retentate.imol[rkey] += water - retentate_water # Moisture held in other phases counts towards the target
+        permeate.imol[pkey] -= water - retentate_water
     else:
-        retentate_moisture = retentate.imass[ID]
+        rkey = ('l', ID) if isinstance(retentate, tmo.MultiStream) else ID
+        pkey = ('l', ID) if isinstance(permeate, tmo.MultiStream) else ID
+        retentate_moisture = np.sum(retentate.imass[ID]) # Over all phases
         dry_mass = F_mass - retentate_moisture
-        key = ('l', ID) if isinstance(retentate, tmo.MultiStream) else ID
-        retentate.imass[key] = moisture = dry_mass * mc/(1-mc)
-        key = ('l', ID) if isinstance(retentate, tmo.MultiStream) else ID
-        permeate.imass[key] -= moisture - retentate_moisture
-    if permeate.imol[key] < 0:
+        moisture = dry_mass * mc/(1-mc)
+        retentate.imass[rkey] += moisture - retentate_moisture
+        permeate.imass[pkey] -= moisture - retentate_moisture
+    if retentate.imol[rkey] < 0:
+        raise InfeasibleRegion(f'{ID} outside the liquid phase exceeds the target; retentate moisture content')
+    if permeate.imol[pkey] < 0:
         if strict is None: strict = True
         if strict:
             raise InfeasibleRegion(f'not enough {ID}; permeate moisture content')
         else:
-            retentate.imol[key] += permeate.imol[key] # Return the deficit (negative) to close the balance
-            permeate.imol[key] = 0.
+            retentate.imol[rkey] += permeate.imol[pkey] # Return the deficit (negative) to close the balance
+            permeate.imol[pkey] = 0.
 
 def mix_and_split(ins, top, bottom, split):
     """
